@@ -266,12 +266,37 @@ class RestartTracker(Monitor):
 
     def __init__(self):
         self.checked: Dict[Tuple[int, str], int] = {}
+        self.incarnations: Dict[int, int] = {}
+        self.view_at_restart: Dict[Tuple[int, str, int], str] = {}   # (observer idx, peer identifier, new incarnation)
 
     def on_instance_state(self, inst, identifier, new_state):
         if new_state.name == 'CHECKED':
             peer = inst.world.by_identifier(identifier)
             if peer is not None:
                 self.checked[(inst.idx, identifier)] = peer.incarnation
+
+    def after_step(self, world):
+        # what every observer held about a peer when that peer came back with a new incarnation
+        for peer in world.instances:
+            prev = self.incarnations.get(peer.idx)
+            if prev is not None and peer.incarnation != prev and peer.alive:
+                for obs in world.instances:
+                    if obs is not peer and obs.alive and obs.supvisors is not None:
+                        status = obs.supvisors.context.instances.get(peer.identifier)
+                        if status is not None:
+                            counter = getattr(getattr(status, 'times', None), 'remote_sequence_counter', 0)
+                            self.view_at_restart[(obs.idx, peer.identifier, peer.incarnation)] = \
+                                f'{status.state.name}:{int(counter or 0)}:{world.now}'
+            if peer.alive:
+                self.incarnations[peer.idx] = peer.incarnation
+
+    def restart_context(self, world: World, observer_nick: str, peer_nick: str) -> str:
+        """"<state>:<stored TICK counter>" held by the observer about the peer when the peer restarted ('' if unknown)."""
+        obs = next((i for i in world.instances if i.nick == observer_nick), None)
+        peer = next((i for i in world.instances if i.nick == peer_nick), None)
+        if obs is None or peer is None:
+            return ''
+        return self.view_at_restart.get((obs.idx, peer.identifier, peer.incarnation), '')
 
     def undetected(self, world: World) -> List[Tuple[str, str]]:
         """(observer nick, peer nick) pairs where the observer treats as RUNNING / CHECKED a peer it last handshook
